@@ -486,6 +486,39 @@ func TestBoundedC13(t *testing.T) {
 	for i := 0; i < 5; i++ {
 		writeFile(t, recs(60+i, int64(i)), 3, []int{60 + i}, Snappy)
 	}
+	// instances abandoned half-way must leave nothing behind for later ones: readers whose
+	// source fails at call k, a reader that skips rows and is dropped, a writer dropped with
+	// records pending
+	wantRows, err := readAll(bytes.NewReader(want["uncompressed"]))
+	if err != nil {
+		t.Fatal(err)
+	}
+	for name := range codecs {
+		for k := 0; k < 60; k += 2 {
+			func() {
+				defer func() { recover() }()
+				readAll(&scriptedSource{data: want[name], failAt: k})
+			}()
+		}
+		if pr, err := NewParquetReader(bytes.NewReader(want[name])); err == nil {
+			for i := 0; i < 30 && pr.Next(); i++ {
+			}
+		}
+	}
+	if w, err := NewParquetWriter(io.Discard, MaxPageSize(4)); err == nil {
+		for _, x := range recs(11, 99) {
+			w.Add(x)
+		}
+	}
+	for name := range codecs {
+		back, err := readAll(bytes.NewReader(want[name]))
+		if err != nil || !reflect.DeepEqual(back, wantRows) {
+			t.Errorf("REPLAY-FAIL C13 codec=%s: a reader that follows abandoned readers in the same process returns different records (err=%v)", name, err)
+		}
+		if got := writeFile(t, rs, 7, []int{25, 15}, codecs[name]); !bytes.Equal(got, want[name]) {
+			t.Errorf("REPLAY-FAIL C13 codec=%s: a writer that follows abandoned instances produces different bytes", name)
+		}
+	}
 	done := make(chan string, 64)
 	n := 0
 	for g := 0; g < 8; g++ {
@@ -500,6 +533,10 @@ func TestBoundedC13(t *testing.T) {
 				back, err := readAll(bytes.NewReader(got))
 				if err != nil || len(back) != len(rs) {
 					done <- fmt.Sprintf("REPLAY-FAIL C13 codec=%s goroutine=%d: concurrent read back failed: %v", name, g, err)
+					return
+				}
+				if !reflect.DeepEqual(back, wantRows) {
+					done <- fmt.Sprintf("REPLAY-FAIL C13 codec=%s goroutine=%d: the records read back differ from those of the first reader of the same file", name, g)
 					return
 				}
 				done <- ""
